@@ -212,8 +212,10 @@ storage_close(struct Storage* self)
     CHECK(self);
     storage_stop(self);
 
-    driver_close_device(&self->device);
+    // The driver releases the device on close, so `self` must not be touched
+    // afterwards.
     self->state = DeviceState_Closed;
+    driver_close_device(&self->device);
 Error:;
 }
 
